@@ -1,5 +1,5 @@
 (* ConnProofs.v — C06: stream decoding never panics and never needs more than one frame buffered. *)
-From Rdest Require Import Base BaseProofs Consts Wire Conn WireProofs.
+From Rdest Require Import Base BaseProofs Consts Wire Conn WireSpec WireProofs.
 From Coq Require Import ZifyBool ZifyN ZifyNat.
 Open Scope N_scope.
 
@@ -377,4 +377,56 @@ Proof.
   rewrite Hlen. replace (4 + L + len x <? 4 + L) with false by lia.
   f_equal. replace (N.to_nat (4 + L)) with (5 + length body)%nat by (unfold len in Hb; lia).
   cbn [skipn Nat.add]. rewrite skipn_app, skipn_all, Nat.sub_diag. reflexivity.
+Qed.
+
+(* ---- the meaning of a well-formed stream, stated from the sender's side ------------------------------ *)
+(* what a peer may put on the wire: a message (encoded by the BEP3 layout, C07_layout) or a frame with an id that is
+   none of the nine, of any admissible length *)
+Inductive item := IMsg (m : msg) | IUnknown (id : N) (body : bytes).
+Definition item_ok (it : item) : Prop :=
+  match it with
+  | IMsg m => FieldsOk m
+  | IUnknown id body => 8 < id /\ 1 + len body <= 65536
+  end.
+Definition encode_item (it : item) : bytes :=
+  match it with
+  | IMsg m => encode_msg m
+  | IUnknown id body => be32 (1 + len body) ++ id :: body
+  end.
+Definition msgs_of_items (l : list item) : list msg :=
+  flat_map (fun it => match it with IMsg m => [m] | IUnknown _ _ => [] end) l.
+
+(* every complete message is delivered, whatever follows it in the buffer *)
+Theorem complete_message_delivered m x : FieldsOk m -> conn_parse (encode_msg m ++ x) = PDeliver m x.
+Proof.
+  intros H. unfold conn_parse. rewrite (roundtrip m x H). rewrite len_app_N.
+  replace (len (encode_msg m) + len x <? len (encode_msg m)) with false by lia.
+  f_equal. unfold len. rewrite Nat2N.id. rewrite skipn_app, skipn_all, Nat.sub_diag. reflexivity.
+Qed.
+
+Lemma be32_unbe32 n : n < 2^32 -> exists a b c d, be32 n = [a; b; c; d] /\ unbe32 a b c d = n.
+Proof.
+  intros H. unfold be32. eexists _, _, _, _. split; [reflexivity|]. unfold unbe32.
+  change (2^32) with 4294967296 in H. lia.
+Qed.
+
+Theorem complete_unknown_skipped id body x : 8 < id -> 1 + len body <= 65536 ->
+  conn_parse (encode_item (IUnknown id body) ++ x) = PSkip x.
+Proof.
+  intros Hid Hl. cbn [encode_item].
+  destruct (be32_unbe32 (1 + len body)) as (a & b & c & d & E & U); [change (2^32) with 4294967296; lia|].
+  rewrite E. cbn [app].
+  pose proof (unknown_id_is_skipped a b c d id body x eq_refl) as K. cbv zeta in K. rewrite U in K.
+  apply K; lia.
+Qed.
+
+(* a stream made of such items decodes to exactly its messages, in order, with nothing left over -- and by
+   segmentation_independent it does so however it is cut into reads *)
+Theorem items_decode l : Forall item_ok l -> Dec (concat (map encode_item l)) (msgs_of_items l) SMore [].
+Proof.
+  induction 1 as [|it l Hit _ IH]; cbn [map concat msgs_of_items flat_map].
+  - apply dec_wait. reflexivity.
+  - destruct it as [m|id body]; cbn [item_ok] in Hit.
+    + cbn [encode_item app]. eapply dec_deliver; [apply complete_message_delivered; exact Hit | exact IH].
+    + destruct Hit as [Hid Hl]. eapply dec_skip; [apply complete_unknown_skipped; assumption | exact IH].
 Qed.
